@@ -95,8 +95,14 @@ def flatten(levels, i, reading='late'):
             if t is None:
                 return ['ref', 'Unresolved_super_%s' % e[1]]
             return ['ref', '%s__%d' % (e[1], t)]
-        if k in ('py', 'hook'):
+        if k in ('py', 'hook', 'num'):
             return e
+        if k == 'repn':
+            return [k, ren(e[1], j, bound), e[2]]
+        if k == 'kwcall':
+            t = top(e[1])
+            name = '%s__%d' % (e[1], t) if (t is not None and e[1] not in bound) else e[1]
+            return ['kwcall', name, [[kw, ren(v, j, bound)] for kw, v in e[2]]]
         if k in ('seq', 'alt', 'longest', 'skip'):
             return [k] + [ren(x, j, bound) for x in e[1:]]
         if k in ('opt', 'star', 'plus', 'expect', 'expectnot'):
